@@ -1,6 +1,8 @@
 package main
 
 import (
+	"go/constant"
+	"go/types"
 	"encoding/json"
 	"go/token"
 	"flag"
@@ -245,6 +247,17 @@ func cmdCheck(args []string) int {
 			}
 		}
 		results = append(results, &TargetResult{Target: "nasgen-coverage", Obls: ko, Exec: NewExec(p)})
+	}
+	if contains(pc.Patterns, "free5gclib/nas/nasMessage") && *only == "" && *prop == "C09" {
+		// declarations against the tables, without solver
+		var ko []*Obligation
+		for _, f := range nasLayoutFindings {
+			name, what, _ := strings.Cut(f, ": ")
+			ko = append(ko, kObl("ts24501."+name, "table:"+sanitize(what), false, f))
+		}
+		ko = append(ko, kObl("ts24501", "messages-with-table", nasLayoutCovered > 0, fmt.Sprintf("%d messages compared with their table", nasLayoutCovered)))
+		ko = append(ko, msgTypeObligations(p)...)
+		results = append(results, &TargetResult{Target: "ts24501-tables", Obls: ko, Exec: NewExec(p)})
 	}
 	if len(pc.Structural) > 0 && *only == "" {
 		results = append(results, &TargetResult{Target: "structural:" + strings.Join(pc.Structural, ","), Obls: structuralObligations(p, *verif, pc.Structural, pc.EntryPoints), Exec: NewExec(p)})
@@ -1007,4 +1020,42 @@ func generatedNote(p *Loaded) string {
 		return ""
 	}
 	return fmt.Sprintf("%d round-trip lemmas generated on this run from the type declarations of nasType / nasMessage of the tree under verification (cmd/govc/nasgen.go)", n)
+}
+
+// msgTypeObligations: the MsgType constants of package nas and the <Message><IE>Type constants of
+// nasMessage carry the values of tables 9.7.1 / 9.7.2 and of the message tables.
+func msgTypeObligations(p *Loaded) []*Obligation {
+	tabs, err := parseTsTables()
+	if err != nil {
+		return []*Obligation{kObl("ts24501", "tables-parse", false, err.Error())}
+	}
+	constVal := func(pkgPath, name string) (int64, bool) {
+		for _, pk := range p.Pkgs {
+			if pk.PkgPath != pkgPath || pk.Types == nil {
+				continue
+			}
+			if c, ok := pk.Types.Scope().Lookup(name).(*types.Const); ok {
+				if v, ok := constant.Int64Val(constant.ToInt(c.Val())); ok {
+					return v, true
+				}
+			}
+		}
+		return 0, false
+	}
+	var names []string
+	for n := range tabs {
+		names = append(names, n)
+	}
+	sort.Strings(names)
+	var out []*Obligation
+	for _, n := range names {
+		tm := tabs[n]
+		v, ok := constVal("free5gclib/nas", "MsgType"+n)
+		out = append(out, kObl("ts24501."+n, "message-type", ok && v == int64(tm.MsgType), fmt.Sprintf("MsgType%s = %d, table 9.7 has %d", n, v, tm.MsgType)))
+		for _, o := range tm.Opt {
+			v, ok := constVal("free5gclib/nas/nasMessage", n+o.GoType+"Type")
+			out = append(out, kObl("ts24501."+n, "iei."+o.GoType, ok && v == int64(o.IEI), fmt.Sprintf("%s%sType = %#x, the table of the message has IEI %X", n, o.GoType, v, o.IEI)))
+		}
+	}
+	return out
 }
